@@ -48,8 +48,34 @@ func main() {
 	t = time.Now()
 	an := fn.Analyze(nil)
 	fmt.Println("analysis", time.Since(t))
+	wantLine := 0
+	if len(os.Args) > 3 {
+		fmt.Sscanf(os.Args[3], "line:%d", &wantLine)
+	}
 	for _, b := range fn.CFG.Blocks {
 		if !b.Live {
+			continue
+		}
+		if wantLine > 0 {
+			hit := false
+			for _, n := range b.Nodes {
+				if p.Fset.Position(n.Pos()).Line == wantLine {
+					hit = true
+				}
+			}
+			if !hit {
+				continue
+			}
+			fmt.Printf("B%d %s\n", b.Index, b.Kind)
+			for _, n := range b.Nodes {
+				var sb strings.Builder
+				printer.Fprint(&sb, p.Fset, n)
+				fmt.Printf("  BEFORE %s:\n", strings.ReplaceAll(sb.String(), "\n", " "))
+				st := an.StateBefore(n)
+				for _, d := range st.D {
+					fmt.Printf("     | %s\n", d.String())
+				}
+			}
 			continue
 		}
 		var succ []string
